@@ -193,11 +193,12 @@ def psegs_sexp(path):
 
 
 def node_or_name_sexp(ld, x):
-    """A scalar node whose value is its own parentref is printed by value: the result of name() is the key
+    """In a query whose path contains a name() segment (name_mode), a scalar node whose value is its own
+    parentref is printed by value: the result of name() is the key
     or index object itself, whose CPython identity is an accident (interned small ints and 1-char strings
     may or may not coincide with scalars of the document).  ocaml/drv_eval.ml applies the same rule."""
     n = x.node
-    if not (is_container(n) or isinstance(n, (list, _ENV["NodeCoords"]))):
+    if _ENV.get("name_mode") and not (is_container(n) or isinstance(n, (list, _ENV["NodeCoords"]))):
         try:
             pv = docenc.pyval_sexp(n)
             if pv == ref_sexp(x.parentref):
@@ -230,6 +231,7 @@ def observe_one(ld, path, mode):
     exc = None
     res = None
     E["creations"] = 0
+    E["name_mode"] = "name(" in path
     try:
         if mode == "exists":
             res = proc.exists(path)
@@ -259,7 +261,43 @@ def requests(case):
     for p in paths:
         out.extend(request_lines(ld, p))
     _CACHE[(doc, tuple(paths))] = ld
+    _CACHE2[(doc, tuple(paths))] = ld
     return out
+
+
+_CACHE2 = {}
+
+
+def is_collector_path(path):
+    t = path
+    for k in ("has_child(", "name(", "max(", "min(", "parent(", "unique(", "distinct("):
+        t = t.replace(k, "")
+    return "(" in t
+
+
+def frag_requests(case):
+    """model-only requests: the fragment of Spec/SpecC15kw.v each collector path (and every 6th other path) is in"""
+    doc, paths = case
+    ld = _CACHE2.pop((doc, tuple(paths)), None)
+    _CACHE2.clear()
+    if ld is None:
+        return []
+    out = []
+    for i, p in enumerate(paths):
+        if is_collector_path(p) or i % 6 == 0:
+            lit, re_t = tables_for(ld, p)
+            out.append("(frag %s %s %s %s %s)" % (hexs(p), ld.sexp, lit, re_t, ld.nstr))
+    return out
+
+
+def frag_stats(case, outs):
+    doc, paths = case
+    sel = [p for i, p in enumerate(paths) if is_collector_path(p) or i % 6 == 0]
+    h = {}
+    for p, o in zip(sel, outs):
+        k = "%s:%s" % ("collector" if is_collector_path(p) else "plain", o.strip("()").replace("frag ", "frag="))
+        h[k] = h.get(k, 0) + 1
+    return h
 
 
 def observe(case):
